@@ -26,7 +26,10 @@ def fresh_file(rng, wf=True):
         elif r < 0.6:
             lines.append(rng.choice(["", "a\nb\n", "\tx = 1\n\n\n", "}\n"]))
         else:
-            lines.append(kj.user_line(rng).decode("utf-8"))
+            ul = kj.user_line(rng)
+            if kj.PFX in kj.spec_clean(ul):   # fresh (generator) lines never clean to something containing the prefix
+                ul = b"plain\n"
+            lines.append(ul.decode("utf-8"))
     if lines and rng.random() < 0.2 and not lines[-1].startswith(("{", "/", " ", "\t")):
         lines[-1] = "last line without LF"
     return lines, used
